@@ -216,4 +216,27 @@ theorem runH_increasing (evs : List Ev) (last hi : Nat) (hlh : last ≤ hi) (hh 
           simp only [okVals_cons_err]
           exact ih l' hi hlh hh hrest
 
+/-- the values commands went on to use are, in order, among the values issued -/
+theorem usedFor_sublist (tags : List (Option String)) (rs : List Res) :
+    ((usedFor tags rs).map (·.2)).Sublist (okVals rs) := by
+  induction tags generalizing rs with
+  | nil => cases rs <;> simp [usedFor]
+  | cons t ts ih =>
+    cases rs with
+    | nil => cases t <;> simp [usedFor]
+    | cons r rs =>
+      cases t with
+      | none =>
+        cases r with
+        | ok v => simpa [usedFor, okVals] using (ih rs).cons v
+        | err => simpa [usedFor, okVals] using ih rs
+      | some n =>
+        cases r with
+        | ok v => simpa [usedFor, okVals] using (ih rs).cons_cons v
+        | err => simpa [usedFor, okVals] using ih rs
+
+theorem valuesOf_sublist (name : String) (l : List (String × Nat)) :
+    (valuesOf name l).Sublist (l.map (·.2)) :=
+  (List.filter_sublist).map _
+
 end Gluon.UidV
